@@ -5,21 +5,603 @@ From MsmV Require Import Lib.Result Lib.PyList Lib.QMat Model.Ergodic Model.Peq 
 Import ListNotations.
 Local Open Scope nat_scope.
 
+(* ------------------------------------------------------------------ *)
+(* helpers: boolean equality                                           *)
+(* ------------------------------------------------------------------ *)
+Lemma Qc_eqb_eq a b : Qc_eqb a b = true -> a = b.
+Proof. unfold Qc_eqb. intros H. apply Qc_is_canon. apply Qeq_bool_eq. exact H. Qed.
+
+Lemma veq_aux (a b : vec) : length a = length b ->
+  forallb (fun q : Qc * Qc => Qc_eqb (fst q) (snd q)) (combine a b) = true -> a = b.
+Proof.
+  revert b. induction a as [|x a IH]; intros [|y b] Hl H; cbn [length] in Hl;
+    try discriminate; [reflexivity|].
+  cbn [combine forallb fst snd] in H. apply andb_true_iff in H. destruct H as [H1 H2].
+  f_equal; [apply Qc_eqb_eq; exact H1 | apply IH; [lia | exact H2]].
+Qed.
+
+Lemma meq_aux (A B : mat) : length A = length B ->
+  forallb (fun p : list Qc * list Qc => Nat.eqb (length (fst p)) (length (snd p)) &&
+     forallb (fun q : Qc * Qc => Qc_eqb (fst q) (snd q)) (combine (fst p) (snd p)))
+    (combine A B) = true -> A = B.
+Proof.
+  revert B. induction A as [|x A IH]; intros [|y B] Hl H; cbn [length] in Hl;
+    try discriminate; [reflexivity|].
+  cbn [combine forallb fst snd] in H. apply andb_true_iff in H. destruct H as [H1 H2].
+  apply andb_true_iff in H1. destruct H1 as [H1 H3]. apply Nat.eqb_eq in H1.
+  f_equal; [apply veq_aux; assumption | apply IH; [lia | exact H2]].
+Qed.
+
 (* boolean equality tests of QMat decide Leibniz equality *)
 Lemma mat_eqb_eq A B : mat_eqb A B = true -> A = B.
-Proof. TODO. Qed.
+Proof.
+  unfold mat_eqb. intros H. apply andb_true_iff in H. destruct H as [H1 H2].
+  apply Nat.eqb_eq in H1. apply meq_aux; assumption.
+Qed.
 Lemma vec_eqb_eq a b : vec_eqb a b = true -> a = b.
-Proof. TODO. Qed.
+Proof.
+  unfold vec_eqb. intros H. apply andb_true_iff in H. destruct H as [H1 H2].
+  apply Nat.eqb_eq in H1. apply veq_aux; assumption.
+Qed.
 
 (* the certificate returned by inverse_cert *)
 Lemma inverse_cert_spec A X : inverse_cert A = Some X ->
   mmul A X = identity (length A) /\ mmul X A = identity (length A).
-Proof. TODO. Qed.
+Proof.
+  unfold inverse_cert. destruct (inverse A) as [Y|]; [|discriminate].
+  destruct (mat_eqb (mmul A Y) (identity (length A)) && mat_eqb (mmul Y A) (identity (length A))) eqn:E;
+    [|discriminate].
+  intros H. injection H as <-. apply andb_true_iff in E. destruct E as [E1 E2].
+  split; apply mat_eqb_eq; assumption.
+Qed.
 
 (* the certified stationary vector *)
 Lemma stationary_spec T v : stationary T = Some v ->
   vmul v T = v /\ qsum v = 1%Qc /\ (forall x, In x v -> (0 <= x)%Qc).
-Proof. TODO. Qed.
+Proof.
+  unfold stationary. cbv zeta. destruct (solve _ _) as [x|]; [|discriminate].
+  destruct (is_stationary T x) eqn:E; [|discriminate].
+  intros H; injection H as <-. unfold is_stationary in E.
+  apply andb_true_iff in E. destruct E as [E E3]. apply andb_true_iff in E. destruct E as [E1 E2].
+  split; [apply vec_eqb_eq; exact E1|]. split; [apply Qc_eqb_eq; exact E2|].
+  intros y Hy. rewrite forallb_forall in E3. specialize (E3 y Hy).
+  unfold Qc_leb in E3. apply Qle_bool_iff in E3. exact E3.
+Qed.
+
+(* ------------------------------------------------------------------ *)
+(* helpers: vectors, entrywise views                                   *)
+(* ------------------------------------------------------------------ *)
+Lemma qsum_map_minus {X} (f g : X -> Qc) l :
+  qsum (map (fun i => (f i - g i)%Qc) l) = (qsum (map f l) - qsum (map g l))%Qc.
+Proof.
+  induction l as [|x l IH]; cbn [map].
+  - rewrite qsum_nil. ring.
+  - rewrite !qsum_cons, IH. ring.
+Qed.
+
+Lemma vec_ext n (a b : vec) : length a = n -> length b = n ->
+  (forall i, i < n -> nth i a 0%Qc = nth i b 0%Qc) -> a = b.
+Proof.
+  intros Ha Hb H. apply nth_ext with (d := 0%Qc) (d' := 0%Qc); [congruence|].
+  intros i Hi. apply H. lia.
+Qed.
+
+Lemma length_ones n : length (ones n) = n.
+Proof. unfold ones. apply repeat_length. Qed.
+
+Lemma nth_ones n i : i < n -> nth i (ones n) 0%Qc = 1%Qc.
+Proof.
+  unfold ones. revert i. induction n as [|n IH]; intros i Hi; [lia|].
+  destruct i as [|i]; cbn [repeat nth]; [reflexivity|]. apply IH. lia.
+Qed.
+
+Lemma qsum_seq_ones_r b n : length b = n ->
+  qsum (map (fun j => (nth j b 0 * nth j (ones n) 0)%Qc) (seq 0 n)) = qsum b.
+Proof.
+  intros Hb. rewrite (qsum_nth_seq b n Hb). apply qsum_map_ext.
+  intros j Hj. apply in_seq in Hj. rewrite nth_ones by lia. ring.
+Qed.
+
+Lemma qsum_seq_ones_l b n : length b = n ->
+  qsum (map (fun j => (nth j (ones n) 0 * nth j b 0)%Qc) (seq 0 n)) = qsum b.
+Proof.
+  intros Hb. rewrite (qsum_nth_seq b n Hb). apply qsum_map_ext.
+  intros j Hj. apply in_seq in Hj. rewrite nth_ones by lia. ring.
+Qed.
+
+(* row vector times matrix *)
+Lemma length_vmul n m v M : 0 < n -> wf n m M -> length (vmul v M) = m.
+Proof.
+  intros Hn HM. unfold vmul. rewrite map_length.
+  apply (wf_length _ _ _ (wf_transpose n m M Hn HM)).
+Qed.
+
+Lemma nth_vmul n m v M j : 0 < n -> length v = n -> wf n m M -> j < m ->
+  nth j (vmul v M) 0%Qc = qsum (map (fun i => (nth i v 0 * mget M i j)%Qc) (seq 0 n)).
+Proof.
+  intros Hn Hv HM Hj. unfold vmul.
+  rewrite (wf_transpose_eq n m M Hn HM), map_map.
+  rewrite (nth_map_seq _ m j 0%Qc Hj).
+  rewrite (vdot_qsum _ _ n).
+  - apply qsum_map_ext. intros k _. rewrite nth_col. reflexivity.
+  - exact Hv.
+  - rewrite length_col. apply (wf_length _ _ _ HM).
+Qed.
+
+(* matrix times column vector *)
+Lemma length_mvec M v : length (mvec M v) = length M.
+Proof. unfold mvec. apply map_length. Qed.
+
+Lemma nth_mvec n m M v i : wf n m M -> length v = m -> i < n ->
+  nth i (mvec M v) 0%Qc = qsum (map (fun j => (mget M i j * nth j v 0)%Qc) (seq 0 m)).
+Proof.
+  intros HM Hv Hi. unfold mvec.
+  rewrite (nth_map_lt (fun r => vdot r v) M i 0%Qc [])
+    by (unfold vec; rewrite (wf_length _ _ _ HM); exact Hi).
+  rewrite (vdot_qsum _ _ m); [reflexivity| |exact Hv].
+  apply (wf_row _ _ _ _ HM Hi).
+Qed.
+
+Lemma mvec_mmul n p m A B v : 0 < p -> wf n p A -> wf p m B -> length v = m ->
+  mvec (mmul A B) v = mvec A (mvec B v).
+Proof.
+  intros Hp HA HB Hv.
+  assert (HAB : wf n m (mmul A B)) by (apply (wf_mmul n p m); assumption).
+  assert (HBv : length (mvec B v) = p) by (rewrite length_mvec; apply (wf_length _ _ _ HB)).
+  apply (vec_ext n).
+  - rewrite length_mvec. apply (wf_length _ _ _ HAB).
+  - rewrite length_mvec. apply (wf_length _ _ _ HA).
+  - intros i Hi.
+    rewrite (nth_mvec n m _ v i HAB Hv Hi), (nth_mvec n p A _ i HA HBv Hi).
+    transitivity (qsum (map (fun j => qsum (map (fun k => (mget A i k * mget B k j * nth j v 0)%Qc) (seq 0 p))) (seq 0 m))).
+    + apply qsum_map_ext. intros j Hj. apply in_seq in Hj.
+      rewrite (mget_mmul n p m A B i j Hp HA HB Hi) by lia.
+      rewrite <- qsum_map_scale_r. reflexivity.
+    + rewrite qsum_exchange. apply qsum_map_ext. intros k Hk. apply in_seq in Hk.
+      rewrite (nth_mvec p m B v k HB Hv) by lia.
+      rewrite <- qsum_map_scale_l. apply qsum_map_ext. intros j _. ring.
+Qed.
+
+Lemma vmul_mmul n p m v A B : 0 < n -> 0 < p -> length v = n -> wf n p A -> wf p m B ->
+  vmul v (mmul A B) = vmul (vmul v A) B.
+Proof.
+  intros Hn Hp Hv HA HB.
+  assert (HAB : wf n m (mmul A B)) by (apply (wf_mmul n p m); assumption).
+  assert (HvA : length (vmul v A) = p) by (apply (length_vmul n p); assumption).
+  apply (vec_ext m).
+  - apply (length_vmul n m); assumption.
+  - apply (length_vmul p m); assumption.
+  - intros j Hj.
+    rewrite (nth_vmul n m v _ j Hn Hv HAB Hj), (nth_vmul p m _ B j Hp HvA HB Hj).
+    transitivity (qsum (map (fun i => qsum (map (fun k => (nth i v 0 * mget A i k * mget B k j)%Qc) (seq 0 p))) (seq 0 n))).
+    + apply qsum_map_ext. intros i Hi. apply in_seq in Hi.
+      rewrite (mget_mmul n p m A B i j Hp HA HB) by lia.
+      rewrite <- qsum_map_scale_l. apply qsum_map_ext. intros k _. ring.
+    + rewrite qsum_exchange. apply qsum_map_ext. intros k Hk. apply in_seq in Hk.
+      rewrite (nth_vmul n p v A k Hn Hv HA) by lia.
+      rewrite <- qsum_map_scale_r. reflexivity.
+Qed.
+
+Lemma mvec_identity n v : length v = n -> mvec (identity n) v = v.
+Proof.
+  intros Hv. apply (vec_ext n).
+  - rewrite length_mvec. apply (wf_length _ _ _ (wf_identity n)).
+  - exact Hv.
+  - intros i Hi. rewrite (nth_mvec n n _ v i (wf_identity n) Hv Hi).
+    rewrite <- (qsum_delta (fun k => nth k v 0%Qc) i n Hi).
+    apply qsum_map_ext. intros k Hk. apply in_seq in Hk.
+    rewrite mget_identity by lia. reflexivity.
+Qed.
+
+Lemma vmul_identity n v : 0 < n -> length v = n -> vmul v (identity n) = v.
+Proof.
+  intros Hn Hv. apply (vec_ext n).
+  - apply (length_vmul n n); [exact Hn|apply wf_identity].
+  - exact Hv.
+  - intros j Hj. rewrite (nth_vmul n n v _ j Hn Hv (wf_identity n) Hj).
+    rewrite <- (qsum_delta_r (fun k => nth k v 0%Qc) j n Hj).
+    apply qsum_map_ext. intros k Hk. apply in_seq in Hk.
+    rewrite mget_identity by lia. reflexivity.
+Qed.
+
+(* M 1 = 1 is the row-sum condition *)
+Lemma nth_mvec_ones n m M i : wf n m M -> i < n ->
+  nth i (mvec M (ones m)) 0%Qc = qsum (nth i M []).
+Proof.
+  intros HM Hi. rewrite (nth_mvec n m M _ i HM (length_ones m) Hi).
+  unfold mget. apply qsum_seq_ones_r. apply (wf_row _ _ _ _ HM Hi).
+Qed.
+
+Lemma mvec_ones n m M : wf n m M -> rows_sum_one M -> mvec M (ones m) = ones n.
+Proof.
+  intros HM SM. apply (vec_ext n).
+  - rewrite length_mvec. apply (wf_length _ _ _ HM).
+  - apply length_ones.
+  - intros i Hi. rewrite (nth_mvec_ones n m M i HM Hi), nth_ones by exact Hi.
+    apply SM. apply nth_In. rewrite (wf_length _ _ _ HM). exact Hi.
+Qed.
+
+Lemma rows_sum_one_of_mvec n m M : wf n m M -> mvec M (ones m) = ones n -> rows_sum_one M.
+Proof.
+  intros HM E r Hr. destruct (In_nth M r [] Hr) as [i [Hi <-]].
+  rewrite (wf_length _ _ _ HM) in Hi.
+  rewrite <- (nth_mvec_ones n m M i HM Hi), E. apply nth_ones. exact Hi.
+Qed.
+
+Lemma qsum_vmul n m v M : 0 < n -> length v = n -> wf n m M -> rows_sum_one M ->
+  qsum (vmul v M) = qsum v.
+Proof.
+  intros Hn Hv HM SM.
+  rewrite (qsum_nth_seq (vmul v M) m) by (apply (length_vmul n m); assumption).
+  transitivity (qsum (map (fun j => qsum (map (fun i => (nth i v 0 * mget M i j)%Qc) (seq 0 n))) (seq 0 m))).
+  { apply qsum_map_ext. intros j Hj. apply in_seq in Hj.
+    apply (nth_vmul n m); try assumption. lia. }
+  rewrite qsum_exchange, (qsum_nth_seq v n Hv).
+  apply qsum_map_ext. intros i Hi. apply in_seq in Hi.
+  rewrite qsum_map_scale_l. unfold mget.
+  rewrite <- (qsum_nth_seq (nth i M []) m) by (apply (wf_row _ _ _ _ HM); lia).
+  rewrite SM by (apply nth_In; rewrite (wf_length _ _ _ HM); lia). ring.
+Qed.
+
+(* transpose *)
+Lemma mvec_transpose n m A v : 0 < n -> wf n m A -> length v = n ->
+  mvec (transpose A) v = vmul v A.
+Proof.
+  intros Hn HA Hv. assert (HAt := wf_transpose n m A Hn HA).
+  apply (vec_ext m).
+  - rewrite length_mvec. apply (wf_length _ _ _ HAt).
+  - apply (length_vmul n m); assumption.
+  - intros j Hj. rewrite (nth_mvec m n _ v j HAt Hv Hj), (nth_vmul n m v A j Hn Hv HA Hj).
+    apply qsum_map_ext. intros i Hi. apply in_seq in Hi.
+    rewrite (mget_transpose n m A j i Hn HA Hj) by lia. ring.
+Qed.
+
+Lemma vmul_transpose n m A v : 0 < n -> 0 < m -> wf n m A -> length v = m ->
+  vmul v (transpose A) = mvec A v.
+Proof.
+  intros Hn Hm HA Hv. assert (HAt := wf_transpose n m A Hn HA).
+  apply (vec_ext n).
+  - apply (length_vmul m n); assumption.
+  - rewrite length_mvec. apply (wf_length _ _ _ HA).
+  - intros i Hi. rewrite (nth_vmul m n v _ i Hm Hv HAt Hi), (nth_mvec n m A v i HA Hv Hi).
+    apply qsum_map_ext. intros j Hj. apply in_seq in Hj.
+    rewrite (mget_transpose n m A j i Hn HA) by lia. ring.
+Qed.
+
+(* diag *)
+Lemma wf_diag v : wf (length v) (length v) (diag v).
+Proof.
+  split.
+  - unfold diag. rewrite map_length, seq_length. reflexivity.
+  - intros r Hr. unfold diag in Hr. apply in_map_iff in Hr.
+    destruct Hr as [i [<- _]]. rewrite map_length, seq_length. reflexivity.
+Qed.
+
+Lemma mget_diag v i j : i < length v -> j < length v ->
+  mget (diag v) i j = ((if Nat.eqb i j then 1 else 0) * nth j v 0)%Qc.
+Proof.
+  intros Hi Hj. unfold mget, diag.
+  rewrite (nth_map_seq _ (length v) i [] Hi).
+  rewrite (nth_map_seq _ (length v) j 0%Qc Hj).
+  destruct (Nat.eqb_spec i j) as [->|_]; ring.
+Qed.
+
+Lemma vmul_diag n v p : 0 < n -> length v = n -> length p = n ->
+  forall j, j < n -> nth j (vmul v (diag p)) 0%Qc = (nth j v 0 * nth j p 0)%Qc.
+Proof.
+  intros Hn Hv Hp j Hj. assert (HD := wf_diag p). rewrite Hp in HD.
+  rewrite (nth_vmul n n v _ j Hn Hv HD Hj).
+  rewrite <- (qsum_delta_r (fun k => (nth k v 0 * nth j p 0)%Qc) j n Hj).
+  apply qsum_map_ext. intros k Hk. apply in_seq in Hk.
+  rewrite mget_diag by lia. ring.
+Qed.
+
+Lemma mvec_diag n p v : length p = n -> length v = n ->
+  forall i, i < n -> nth i (mvec (diag p) v) 0%Qc = (nth i p 0 * nth i v 0)%Qc.
+Proof.
+  intros Hp Hv i Hi. assert (HD := wf_diag p). rewrite Hp in HD.
+  rewrite (nth_mvec n n _ v i HD Hv Hi).
+  rewrite <- (qsum_delta (fun k => (nth k p 0 * nth k v 0)%Qc) i n Hi).
+  apply qsum_map_ext. intros k Hk. apply in_seq in Hk.
+  rewrite mget_diag by lia. ring.
+Qed.
+
+Lemma vmul_ones_diag n p : 0 < n -> length p = n -> vmul (ones n) (diag p) = p.
+Proof.
+  intros Hn Hp. assert (HD := wf_diag p). rewrite Hp in HD.
+  apply (vec_ext n); [apply (length_vmul n n); assumption|exact Hp|].
+  intros j Hj. rewrite (vmul_diag n _ p Hn (length_ones n) Hp j Hj), nth_ones by exact Hj. ring.
+Qed.
+
+Lemma mvec_diag_ones n p : length p = n -> mvec (diag p) (ones n) = p.
+Proof.
+  intros Hp. assert (HD := wf_diag p). rewrite Hp in HD.
+  apply (vec_ext n); [rewrite length_mvec; apply (wf_length _ _ _ HD)|exact Hp|].
+  intros i Hi. rewrite (mvec_diag n p _ Hp (length_ones n) i Hi), nth_ones by exact Hi. ring.
+Qed.
+
+(* outer *)
+Lemma wf_outer a b : wf (length a) (length b) (outer a b).
+Proof.
+  split.
+  - unfold outer. apply map_length.
+  - intros r Hr. unfold outer in Hr. apply in_map_iff in Hr.
+    destruct Hr as [x [<- _]]. apply map_length.
+Qed.
+
+Lemma mget_outer a b i j : i < length a -> j < length b ->
+  mget (outer a b) i j = (nth i a 0 * nth j b 0)%Qc.
+Proof.
+  intros Hi Hj. unfold mget, outer.
+  rewrite (nth_map_lt (fun x => map (fun y => (x * y)%Qc) b) a i [] 0%Qc Hi).
+  rewrite (nth_map_lt (fun y => (nth i a 0 * y)%Qc) b j 0%Qc 0%Qc Hj). reflexivity.
+Qed.
+
+Lemma nth_mvec_outer n m a b v i : length a = n -> length b = m -> length v = m -> i < n ->
+  nth i (mvec (outer a b) v) 0%Qc =
+  (nth i a 0 * qsum (map (fun j => (nth j b 0 * nth j v 0)%Qc) (seq 0 m)))%Qc.
+Proof.
+  intros Ha Hb Hv Hi. assert (HO := wf_outer a b). rewrite Ha, Hb in HO.
+  rewrite (nth_mvec n m _ v i HO Hv Hi), <- qsum_map_scale_l.
+  apply qsum_map_ext. intros j Hj. apply in_seq in Hj.
+  rewrite mget_outer by lia. ring.
+Qed.
+
+Lemma nth_vmul_outer n m a b v j : 0 < n -> length a = n -> length b = m -> length v = n -> j < m ->
+  nth j (vmul v (outer a b)) 0%Qc =
+  (qsum (map (fun i => (nth i v 0 * nth i a 0)%Qc) (seq 0 n)) * nth j b 0)%Qc.
+Proof.
+  intros Hn Ha Hb Hv Hj. assert (HO := wf_outer a b). rewrite Ha, Hb in HO.
+  rewrite (nth_vmul n m v _ j Hn Hv HO Hj), <- qsum_map_scale_r.
+  apply qsum_map_ext. intros i Hi. apply in_seq in Hi.
+  rewrite mget_outer by lia. ring.
+Qed.
+
+(* entrywise sum and difference *)
+Definition mzip (f : Qc -> Qc -> Qc) (A B : mat) : mat :=
+  map (fun p => map (fun q => f (fst q) (snd q)) (combine (fst p) (snd p))) (combine A B).
+
+Lemma madd_mzip A B : madd A B = mzip Qcplus A B.
+Proof. reflexivity. Qed.
+Lemma msub_mzip A B : msub A B = mzip Qcminus A B.
+Proof. reflexivity. Qed.
+
+Lemma wf_mzip f n m A B : wf n m A -> wf n m B -> wf n m (mzip f A B).
+Proof.
+  intros [HA1 HA2] [HB1 HB2]. split.
+  - unfold mzip. rewrite map_length, combine_length. lia.
+  - intros r Hr. unfold mzip in Hr. apply in_map_iff in Hr. destruct Hr as [[a b] [<- Hp]].
+    cbn [fst snd]. rewrite map_length, combine_length.
+    rewrite (HA2 a (in_combine_l _ _ _ _ Hp)), (HB2 b (in_combine_r _ _ _ _ Hp)). lia.
+Qed.
+
+Lemma mget_mzip f n m A B i j : wf n m A -> wf n m B -> i < n -> j < m ->
+  mget (mzip f A B) i j = f (mget A i j) (mget B i j).
+Proof.
+  intros HA HB Hi Hj. unfold mget, mzip.
+  rewrite (nth_map_lt _ (combine A B) i [] ([],[]))
+    by (rewrite combine_length, (wf_length _ _ _ HA), (wf_length _ _ _ HB); lia).
+  rewrite combine_nth by (rewrite (wf_length _ _ _ HA), (wf_length _ _ _ HB); reflexivity).
+  cbn [fst snd].
+  rewrite (nth_map_lt _ (combine _ _) j 0%Qc (0%Qc,0%Qc))
+    by (rewrite combine_length, (wf_row _ _ _ _ HA Hi), (wf_row _ _ _ _ HB Hi); lia).
+  rewrite combine_nth by (rewrite (wf_row _ _ _ _ HA Hi), (wf_row _ _ _ _ HB Hi); reflexivity).
+  reflexivity.
+Qed.
+
+Lemma wf_madd n m A B : wf n m A -> wf n m B -> wf n m (madd A B).
+Proof. rewrite madd_mzip. apply wf_mzip. Qed.
+Lemma wf_msub n m A B : wf n m A -> wf n m B -> wf n m (msub A B).
+Proof. rewrite msub_mzip. apply wf_mzip. Qed.
+Lemma mget_madd n m A B i j : wf n m A -> wf n m B -> i < n -> j < m ->
+  mget (madd A B) i j = (mget A i j + mget B i j)%Qc.
+Proof. rewrite madd_mzip. apply mget_mzip. Qed.
+Lemma mget_msub n m A B i j : wf n m A -> wf n m B -> i < n -> j < m ->
+  mget (msub A B) i j = (mget A i j - mget B i j)%Qc.
+Proof. rewrite msub_mzip. apply mget_mzip. Qed.
+
+Lemma nth_mvec_madd n m A B v i : wf n m A -> wf n m B -> length v = m -> i < n ->
+  nth i (mvec (madd A B) v) 0%Qc = (nth i (mvec A v) 0 + nth i (mvec B v) 0)%Qc.
+Proof.
+  intros HA HB Hv Hi.
+  rewrite (nth_mvec n m _ v i (wf_madd n m A B HA HB) Hv Hi).
+  rewrite (nth_mvec n m A v i HA Hv Hi), (nth_mvec n m B v i HB Hv Hi), <- qsum_map_plus.
+  apply qsum_map_ext. intros j Hj. apply in_seq in Hj.
+  rewrite (mget_madd n m) by (assumption || lia). ring.
+Qed.
+
+Lemma nth_mvec_msub n m A B v i : wf n m A -> wf n m B -> length v = m -> i < n ->
+  nth i (mvec (msub A B) v) 0%Qc = (nth i (mvec A v) 0 - nth i (mvec B v) 0)%Qc.
+Proof.
+  intros HA HB Hv Hi.
+  rewrite (nth_mvec n m _ v i (wf_msub n m A B HA HB) Hv Hi).
+  rewrite (nth_mvec n m A v i HA Hv Hi), (nth_mvec n m B v i HB Hv Hi), <- qsum_map_minus.
+  apply qsum_map_ext. intros j Hj. apply in_seq in Hj.
+  rewrite (mget_msub n m) by (assumption || lia). ring.
+Qed.
+
+Lemma nth_vmul_madd n m A B v j : 0 < n -> wf n m A -> wf n m B -> length v = n -> j < m ->
+  nth j (vmul v (madd A B)) 0%Qc = (nth j (vmul v A) 0 + nth j (vmul v B) 0)%Qc.
+Proof.
+  intros Hn HA HB Hv Hj.
+  rewrite (nth_vmul n m v _ j Hn Hv (wf_madd n m A B HA HB) Hj).
+  rewrite (nth_vmul n m v A j Hn Hv HA Hj), (nth_vmul n m v B j Hn Hv HB Hj), <- qsum_map_plus.
+  apply qsum_map_ext. intros i Hi. apply in_seq in Hi.
+  rewrite (mget_madd n m) by (assumption || lia). ring.
+Qed.
+
+Lemma nth_vmul_msub n m A B v j : 0 < n -> wf n m A -> wf n m B -> length v = n -> j < m ->
+  nth j (vmul v (msub A B)) 0%Qc = (nth j (vmul v A) 0 - nth j (vmul v B) 0)%Qc.
+Proof.
+  intros Hn HA HB Hv Hj.
+  rewrite (nth_vmul n m v _ j Hn Hv (wf_msub n m A B HA HB) Hj).
+  rewrite (nth_vmul n m v A j Hn Hv HA Hj), (nth_vmul n m v B j Hn Hv HB Hj), <- qsum_map_minus.
+  apply qsum_map_ext. intros i Hi. apply in_seq in Hi.
+  rewrite (mget_msub n m) by (assumption || lia). ring.
+Qed.
+
+(* the matrix  I + 1 p^T - M  acting on 1 and on a row vector *)
+Lemma wf_ipm n p M : length p = n -> wf n n M ->
+  wf n n (msub (madd (identity n) (outer (ones n) p)) M).
+Proof.
+  intros Hp HM. apply wf_msub; [|exact HM]. apply wf_madd; [apply wf_identity|].
+  assert (HO := wf_outer (ones n) p). rewrite length_ones, Hp in HO. exact HO.
+Qed.
+
+Lemma mvec_ipm_ones n p M i : length p = n -> wf n n M -> i < n ->
+  nth i (mvec (msub (madd (identity n) (outer (ones n) p)) M) (ones n)) 0%Qc =
+  (1 + qsum p - nth i (mvec M (ones n)) 0)%Qc.
+Proof.
+  intros Hp HM Hi.
+  assert (HO : wf n n (outer (ones n) p)).
+  { assert (HO := wf_outer (ones n) p). rewrite length_ones, Hp in HO. exact HO. }
+  assert (HIO : wf n n (madd (identity n) (outer (ones n) p))) by (apply wf_madd; [apply wf_identity|exact HO]).
+  rewrite (nth_mvec_msub n n _ M _ i HIO HM (length_ones n) Hi).
+  rewrite (nth_mvec_madd n n _ _ _ i (wf_identity n) HO (length_ones n) Hi).
+  rewrite mvec_identity by apply length_ones.
+  rewrite (nth_mvec_outer n n _ p _ i (length_ones n) Hp (length_ones n) Hi).
+  rewrite nth_ones by exact Hi. rewrite (qsum_seq_ones_r p n Hp). ring.
+Qed.
+
+Lemma vmul_ipm n p M v j : 0 < n -> length p = n -> wf n n M -> length v = n -> j < n ->
+  nth j (vmul v (msub (madd (identity n) (outer (ones n) p)) M)) 0%Qc =
+  (nth j v 0 + qsum v * nth j p 0 - nth j (vmul v M) 0)%Qc.
+Proof.
+  intros Hn Hp HM Hv Hj.
+  assert (HO : wf n n (outer (ones n) p)).
+  { assert (HO := wf_outer (ones n) p). rewrite length_ones, Hp in HO. exact HO. }
+  assert (HIO : wf n n (madd (identity n) (outer (ones n) p))) by (apply wf_madd; [apply wf_identity|exact HO]).
+  rewrite (nth_vmul_msub n n _ M v j Hn HIO HM Hv Hj).
+  rewrite (nth_vmul_madd n n _ _ v j Hn (wf_identity n) HO Hv Hj).
+  rewrite vmul_identity by assumption.
+  rewrite (nth_vmul_outer n n _ p v j Hn (length_ones n) Hp Hv Hj).
+  rewrite (qsum_seq_ones_r v n Hv). ring.
+Qed.
+
+(* ------------------------------------------------------------------ *)
+(* helpers: the Gauss-Jordan inverse of a square matrix is square       *)
+(* ------------------------------------------------------------------ *)
+Lemma find_pivot_spec k rows p others : find_pivot k rows = Some (p, others) ->
+  length rows = S (length others) /\ (forall r, In r (p :: others) -> In r rows).
+Proof.
+  revert p others. induction rows as [|r rest IH]; intros p others H; cbn [find_pivot] in H;
+    [discriminate|].
+  destruct (Qc_eqb (nth k r 0%Qc) 0).
+  - destruct (find_pivot k rest) as [[p' o']|] eqn:E; [|discriminate].
+    injection H as <- <-. destruct (IH p' o' eq_refl) as [IH1 IH2]. split.
+    + cbn [length]. rewrite IH1. reflexivity.
+    + intros x [<-|[<-|Hx]].
+      * right. apply IH2. left; reflexivity.
+      * left; reflexivity.
+      * right. apply IH2. right; exact Hx.
+  - injection H as <- <-. split; [reflexivity|]. intros x Hx. exact Hx.
+Qed.
+
+Lemma length_row_scale c r : length (row_scale c r) = length r.
+Proof. unfold row_scale. apply map_length. Qed.
+
+Lemma length_row_sub r s c : length (row_sub r s c) = Nat.min (length r) (length s).
+Proof. unfold row_sub. rewrite map_length. apply combine_length. Qed.
+
+Lemma gauss_jordan_wf L fuel : forall k done todo res,
+  (forall r, In r done -> length r = L) -> (forall r, In r todo -> length r = L) ->
+  gauss_jordan fuel k done todo = Some res ->
+  length res = length done + length todo /\ (forall r, In r res -> length r = L).
+Proof.
+  induction fuel as [|f IH]; intros k done todo res Hd Ht H; cbn [gauss_jordan] in H.
+  - destruct todo as [|t todo']; [|discriminate]. injection H as <-.
+    split; [cbn [length]; unfold vec in *; lia|exact Hd].
+  - destruct todo as [|t todo'].
+    + injection H as <-. split; [cbn [length]; unfold vec in *; lia|exact Hd].
+    + destruct (find_pivot k (t :: todo')) as [[p others]|] eqn:E; [|discriminate].
+      apply find_pivot_spec in E. destruct E as [E1 E2].
+      assert (Hp : length (row_scale (/ nth k p 0)%Qc p) = L).
+      { rewrite length_row_scale. apply Ht, E2. left; reflexivity. }
+      apply IH in H.
+      * destruct H as [H1 H2]. split; [|exact H2].
+        rewrite H1, app_length, !map_length. unfold vec in *. cbn [length] in *. lia.
+      * intros r Hr. apply in_app_iff in Hr. destruct Hr as [Hr|[<-|[]]]; [|exact Hp].
+        apply in_map_iff in Hr. destruct Hr as [r0 [<- Hr0]].
+        rewrite length_row_sub, Hp, (Hd r0 Hr0). lia.
+      * intros r Hr. apply in_map_iff in Hr. destruct Hr as [r0 [<- Hr0]].
+        rewrite length_row_sub, Hp, (Ht r0 (E2 r0 (or_intror Hr0))). lia.
+Qed.
+
+Lemma inverse_wf n A X : wf n n A -> inverse A = Some X -> wf n n X.
+Proof.
+  intros HA H. unfold inverse in H. cbv zeta in H. rewrite (wf_length _ _ _ HA) in H.
+  destruct (gauss_jordan n 0 [] _) as [rows|] eqn:E; [|discriminate].
+  injection H as <-.
+  apply (gauss_jordan_wf (n + n)) in E.
+  - destruct E as [E1 E2]. split.
+    + rewrite map_length. unfold vec in *. rewrite E1, map_length, combine_length.
+      rewrite (wf_length _ _ _ HA), (wf_length _ _ _ (wf_identity n)). cbn [length]. lia.
+    + intros r Hr. apply in_map_iff in Hr. destruct Hr as [r0 [<- Hr0]].
+      rewrite skipn_length, (E2 r0 Hr0). lia.
+  - intros r [].
+  - intros r Hr. apply in_map_iff in Hr. destruct Hr as [[a b] [<- Hp]].
+    cbn [fst snd]. rewrite app_length.
+    destruct HA as [_ HA2]. destruct (wf_identity n) as [_ HI2].
+    rewrite (HA2 a (in_combine_l _ _ _ _ Hp)), (HI2 b (in_combine_r _ _ _ _ Hp)). reflexivity.
+Qed.
+
+Lemma inverse_cert_wf n A X : wf n n A -> inverse_cert A = Some X -> wf n n X.
+Proof.
+  intros HA H. unfold inverse_cert in H. destruct (inverse A) as [Y|] eqn:E; [|discriminate].
+  destruct (_ && _); [|discriminate]. injection H as <-. apply (inverse_wf n A); assumption.
+Qed.
+
+(* ------------------------------------------------------------------ *)
+(* helpers: row normalisation                                          *)
+(* ------------------------------------------------------------------ *)
+Lemma row_normalize_noop M : rows_sum_one M -> row_normalize M = M.
+Proof.
+  intros H. unfold row_normalize. apply map_id_in. intros r Hr. cbv zeta.
+  rewrite (H r Hr). replace (Qc_eqb 1 0) with false by reflexivity.
+  apply map_id_in. intros x _. field. apply Q_apart_0_1.
+Qed.
+
+Lemma Qcinv_nonneg d : (0 <= d)%Qc -> (0 <= / d)%Qc.
+Proof.
+  unfold Qcle. intros H. unfold Qcinv. cbn [this Q2Qc]. rewrite (Qred_correct (/ d)).
+  apply Qinv_le_0_compat. exact H.
+Qed.
+
+Lemma qsum_map_div r d : qsum (map (fun x => (x / d)%Qc) r) = (qsum r / d)%Qc.
+Proof.
+  induction r as [|x r IH]; cbn [map].
+  - rewrite qsum_nil. unfold Qcdiv. ring.
+  - rewrite !qsum_cons, IH. unfold Qcdiv. ring.
+Qed.
+
+Lemma row_normalize_nonneg M : entries_nonneg M ->
+  entries_nonneg (row_normalize M) /\
+  (forall r, In r (row_normalize M) -> qsum r = 1%Qc \/ qsum r = 0%Qc).
+Proof.
+  intros HM. split.
+  - intros r x Hr Hx. unfold row_normalize in Hr. apply in_map_iff in Hr.
+    destruct Hr as [r0 [<- Hr0]]. cbv zeta in Hx. apply in_map_iff in Hx.
+    destruct Hx as [y [<- Hy]].
+    assert (Hs : (0 <= qsum r0)%Qc) by (apply qsum_nonneg; intros z Hz; apply (HM r0 z Hr0 Hz)).
+    unfold Qcdiv. apply Qcmult_nonneg; [apply (HM r0 y Hr0 Hy)|]. apply Qcinv_nonneg.
+    destruct (Qc_eqb (qsum r0) 0); [apply Qc_0_le_1|exact Hs].
+  - intros r Hr. unfold row_normalize in Hr. apply in_map_iff in Hr.
+    destruct Hr as [r0 [<- Hr0]]. cbv zeta. rewrite qsum_map_div.
+    destruct (Qc_eqb (qsum r0) 0) eqn:E.
+    + right. apply Qc_eqb_eq in E. rewrite E. unfold Qcdiv. ring.
+    + left. field. intros E0. rewrite E0 in E. unfold Qc_eqb in E.
+      rewrite Qeq_bool_refl in E. discriminate.
+Qed.
+
+Lemma clip_entries_nonneg M :
+  entries_nonneg (map (map (fun x => if Qc_ltb x 0 then 0%Qc else x)) M).
+Proof.
+  intros r x Hr Hx. apply in_map_iff in Hr. destruct Hr as [r0 [<- _]].
+  apply in_map_iff in Hx. destruct Hx as [y [<- _]].
+  unfold Qc_ltb. destruct (Qle_bool _ _) eqn:E; cbn [negb].
+  - apply Qle_bool_iff in E. exact E.
+  - apply Qcle_refl.
+Qed.
 
 Section HS.
 Variables (n m : nat) (T : mat) (pi : vec) (A Z M2 : mat).
@@ -43,17 +625,147 @@ Hypothesis ZK : mmul Z K = identity n.
 Hypothesis NM : mmul N M2 = identity m.
 Hypothesis MN : mmul M2 N = identity m.
 
+Lemma hs_wfK : wf n n K.
+Proof. unfold K. apply wf_ipm; assumption. Qed.
+
+Lemma hs_len_pA : length pA = m.
+Proof. unfold pA. apply (length_vmul n m); assumption. Qed.
+
+Lemma hs_wfD : wf n n (diag pi).
+Proof. assert (HD := wf_diag pi). rewrite Hpi in HD. exact HD. Qed.
+
+Lemma hs_wfDA : wf m m (diag pA).
+Proof. assert (HD := wf_diag pA). rewrite hs_len_pA in HD. exact HD. Qed.
+
+Lemma hs_wfZA : wf n m (mmul Z A).
+Proof. apply (wf_mmul n n m); assumption. Qed.
+
+Lemma hs_wfDZA : wf n m (mmul (diag pi) (mmul Z A)).
+Proof. apply (wf_mmul n n m); [exact Hn|exact hs_wfD|exact hs_wfZA]. Qed.
+
+Lemma hs_wfAt : wf m n (transpose A).
+Proof. apply wf_transpose; assumption. Qed.
+
+Lemma hs_wfN : wf m m N.
+Proof. unfold N. apply (wf_mmul m n m); [exact Hn|exact hs_wfAt|exact hs_wfDZA]. Qed.
+
+Lemma hs_wfM2D : wf m m (mmul M2 (diag pA)).
+Proof. apply (wf_mmul m m m); [exact Hm|exact HM2|exact hs_wfDA]. Qed.
+
+Lemma hs_wfTA : wf m m TA.
+Proof. unfold TA. apply wf_ipm; [exact hs_len_pA|exact hs_wfM2D]. Qed.
+
+(* K 1 = 1 *)
+Lemma hs_K1 : mvec K (ones n) = ones n.
+Proof.
+  apply (vec_ext n).
+  - rewrite length_mvec. apply (wf_length _ _ _ hs_wfK).
+  - apply length_ones.
+  - intros i Hi. unfold K. rewrite (mvec_ipm_ones n pi T i Hpi HT Hi).
+    rewrite pi1, (mvec_ones n n T HT T1), nth_ones by exact Hi. ring.
+Qed.
+
+(* Z 1 = 1 *)
+Lemma hs_Z1 : mvec Z (ones n) = ones n.
+Proof.
+  transitivity (mvec Z (mvec K (ones n))); [rewrite hs_K1; reflexivity|].
+  rewrite <- (mvec_mmul n n n Z K _ Hn HZ hs_wfK (length_ones n)), ZK.
+  apply mvec_identity, length_ones.
+Qed.
+
+(* pi K = pi *)
+Lemma hs_piK : vmul pi K = pi.
+Proof.
+  apply (vec_ext n).
+  - apply (length_vmul n n); [exact Hn|exact hs_wfK].
+  - exact Hpi.
+  - intros j Hj. unfold K. rewrite (vmul_ipm n pi T pi j Hn Hpi HT Hpi Hj).
+    rewrite pi1, piT. ring.
+Qed.
+
+(* pi Z = pi *)
+Lemma hs_piZ : vmul pi Z = pi.
+Proof.
+  transitivity (vmul (vmul pi K) Z); [rewrite hs_piK; reflexivity|].
+  rewrite <- (vmul_mmul n n n pi K Z Hn Hn Hpi hs_wfK HZ), KZ.
+  apply vmul_identity; assumption.
+Qed.
+
+Lemma hs_A1 : mvec A (ones m) = ones n.
+Proof. apply (mvec_ones n m A HA A1). Qed.
+
+(* N 1 = pA^T *)
+Lemma hs_N1 : mvec N (ones m) = pA.
+Proof.
+  unfold N.
+  rewrite (mvec_mmul m n m (transpose A) _ _ Hn hs_wfAt hs_wfDZA (length_ones m)).
+  rewrite (mvec_mmul n n m (diag pi) _ _ Hn hs_wfD hs_wfZA (length_ones m)).
+  rewrite (mvec_mmul n n m Z A _ Hn HZ HA (length_ones m)).
+  rewrite hs_A1, hs_Z1, (mvec_diag_ones n pi Hpi).
+  apply (mvec_transpose n m A pi Hn HA Hpi).
+Qed.
+
+(* 1^T N = pA *)
+Lemma hs_1N : vmul (ones m) N = pA.
+Proof.
+  unfold N.
+  rewrite (vmul_mmul m n m (ones m) (transpose A) _ Hm Hn (length_ones m) hs_wfAt hs_wfDZA).
+  rewrite (vmul_transpose n m A _ Hn Hm HA (length_ones m)), hs_A1.
+  rewrite (vmul_mmul n n m (ones n) (diag pi) _ Hn Hn (length_ones n) hs_wfD hs_wfZA).
+  rewrite (vmul_ones_diag n pi Hn Hpi).
+  rewrite (vmul_mmul n n m pi Z A Hn Hn Hpi HZ HA), hs_piZ. reflexivity.
+Qed.
+
+(* pA 1 = 1 *)
+Lemma hs_pA1 : qsum pA = 1%Qc.
+Proof. unfold pA. rewrite (qsum_vmul n m pi A Hn Hpi HA A1). exact pi1. Qed.
+
+(* M2 D_A 1 = M2 pA^T = M2 N 1 = 1 *)
+Lemma hs_M2D1 : mvec (mmul M2 (diag pA)) (ones m) = ones m.
+Proof.
+  rewrite (mvec_mmul m m m M2 (diag pA) _ Hm HM2 hs_wfDA (length_ones m)).
+  rewrite (mvec_diag_ones m pA hs_len_pA).
+  transitivity (mvec M2 (mvec N (ones m))); [rewrite hs_N1; reflexivity|].
+  rewrite <- (mvec_mmul m m m M2 N _ Hm HM2 hs_wfN (length_ones m)), MN.
+  apply mvec_identity, length_ones.
+Qed.
+
+(* pA M2 D_A = 1^T N M2 D_A = 1^T D_A = pA *)
+Lemma hs_pAM2D : vmul pA (mmul M2 (diag pA)) = pA.
+Proof.
+  rewrite (vmul_mmul m m m pA M2 (diag pA) Hm Hm hs_len_pA HM2 hs_wfDA).
+  assert (E : vmul pA M2 = ones m).
+  { transitivity (vmul (vmul (ones m) N) M2); [rewrite hs_1N; reflexivity|].
+    rewrite <- (vmul_mmul m m m (ones m) N M2 Hm Hm (length_ones m) hs_wfN HM2), NM.
+    apply vmul_identity; [exact Hm|apply length_ones]. }
+  rewrite E. apply vmul_ones_diag; [exact Hm|exact hs_len_pA].
+Qed.
+
 (* rows of the lumped matrix sum to one *)
 Lemma hs_rowsum : rows_sum_one TA.
-Proof. TODO. Qed.
+Proof.
+  apply (rows_sum_one_of_mvec m m TA hs_wfTA). apply (vec_ext m).
+  - rewrite length_mvec. apply (wf_length _ _ _ hs_wfTA).
+  - apply length_ones.
+  - intros i Hi. unfold TA.
+    rewrite (mvec_ipm_ones m pA _ i hs_len_pA hs_wfM2D Hi).
+    rewrite hs_pA1, hs_M2D1, nth_ones by exact Hi. ring.
+Qed.
 
 (* the per-macrostate sums of the equilibrium populations are stationary *)
 Lemma hs_stationary : vmul pA TA = pA.
-Proof. TODO. Qed.
+Proof.
+  apply (vec_ext m).
+  - apply (length_vmul m m); [exact Hm|exact hs_wfTA].
+  - exact hs_len_pA.
+  - intros j Hj. unfold TA.
+    rewrite (vmul_ipm m pA _ pA j Hm hs_len_pA hs_wfM2D hs_len_pA Hj).
+    rewrite hs_pA1, hs_pAM2D. ring.
+Qed.
 
 (* hence the final row normalisation does not change the unclipped matrix *)
 Lemma hs_normalise_noop : row_normalize TA = TA.
-Proof. TODO. Qed.
+Proof. apply row_normalize_noop. exact hs_rowsum. Qed.
 End HS.
 
 (* the executable formula: whenever it returns a matrix (certificates passed) for
@@ -62,15 +774,54 @@ Lemma hs_formula_sound n m T pi A R : 0 < n -> 0 < m -> wf n n T -> length pi = 
   rows_sum_one T -> vmul pi T = pi -> qsum pi = 1%Qc -> rows_sum_one A ->
   hs_formula T pi A false = Some R ->
   rows_sum_one R /\ vmul (vmul pi A) R = vmul pi A.
-Proof. TODO. Qed.
+Proof.
+  intros Hn Hm HT Hpi HA T1 piT pi1 A1 H.
+  unfold hs_formula in H. cbv zeta in H.
+  rewrite (wf_length _ _ _ HT), (wf_ncols n m A Hn HA) in H.
+  set (K := msub (madd (identity n) (outer (ones n) pi)) T) in *.
+  assert (HK : wf n n K) by (apply wf_ipm; assumption).
+  destruct (inverse_cert K) as [Z|] eqn:EK; [|discriminate].
+  set (N := mmul (transpose A) (mmul (diag pi) (mmul Z A))) in *.
+  destruct (inverse_cert N) as [M2|] eqn:EN; [|discriminate].
+  injection H as <-.
+  assert (HZ : wf n n Z) by (apply (inverse_cert_wf n K); assumption).
+  assert (HN : wf m m N).
+  { apply (wf_mmul m n m); [exact Hn|apply wf_transpose; assumption|].
+    apply (wf_mmul n n m); [exact Hn| |apply (wf_mmul n n m); assumption].
+    assert (HD := wf_diag pi). rewrite Hpi in HD. exact HD. }
+  assert (HM2 : wf m m M2) by (apply (inverse_cert_wf m N); assumption).
+  destruct (inverse_cert_spec K Z EK) as [KZ ZK]. rewrite (wf_length _ _ _ HK) in KZ, ZK.
+  destruct (inverse_cert_spec N M2 EN) as [NM MN]. rewrite (wf_length _ _ _ HN) in NM, MN.
+  rewrite (hs_normalise_noop n m T pi A Z M2) by assumption.
+  split.
+  - apply (hs_rowsum n m T pi A Z M2); assumption.
+  - apply (hs_stationary n m T pi A Z M2); assumption.
+Qed.
 
 (* positive=true: no negative entry, rows sum to one (or are all zero) *)
 Lemma hs_formula_positive T pi A R : hs_formula T pi A true = Some R ->
   (forall r x, In r R -> In x r -> (0 <= x)%Qc) /\
   (forall r, In r R -> qsum r = 1%Qc \/ qsum r = 0%Qc).
-Proof. TODO. Qed.
+Proof.
+  unfold hs_formula. cbv zeta.
+  destruct (inverse_cert _) as [Z|]; [|discriminate].
+  destruct (inverse_cert _) as [M2|]; [|discriminate].
+  intros H. injection H as <-.
+  apply row_normalize_nonneg. apply clip_entries_nonneg.
+Qed.
 
 (* the aggregation matrix built from an assignment has exactly one 1 per row *)
 Lemma aggregation_rows nmacro aidx : (forall a, In a aidx -> a < nmacro) ->
   wf (length aidx) nmacro (aggregation nmacro aidx) /\ rows_sum_one (aggregation nmacro aidx).
-Proof. TODO. Qed.
+Proof.
+  intros H. split.
+  - split.
+    + unfold aggregation. apply map_length.
+    + intros r Hr. unfold aggregation in Hr. apply in_map_iff in Hr.
+      destruct Hr as [a [<- _]]. rewrite map_length, seq_length. reflexivity.
+  - intros r Hr. unfold aggregation in Hr. apply in_map_iff in Hr.
+    destruct Hr as [a [<- Ha]]. specialize (H a Ha).
+    transitivity (qsum (map (fun k => ((if Nat.eqb a k then 1 else 0) * 1)%Qc) (seq 0 nmacro))).
+    + apply qsum_map_ext. intros k _. ring.
+    + apply (qsum_delta (fun _ => 1%Qc) a nmacro). exact H.
+Qed.
